@@ -5,6 +5,7 @@ import (
 	"fmt"
 	"io"
 	"reflect"
+	"strings"
 
 	"github.com/google/uuid"
 
@@ -19,6 +20,7 @@ import (
 	"verifsim/gen"
 	"verifsim/harness"
 	"verifsim/kernel"
+	"verifsim/oracle/nbtgen"
 	"verifsim/simnet"
 	"verifsim/simrt"
 	"verifsim/simsync"
@@ -239,6 +241,14 @@ func roundTrip(v any) (any, error) {
 	return out.Elem().Interface(), nil
 }
 
+// caseKey returns the key in one of its capitalisations.
+func caseKey(k string, salt int) string {
+	if salt%2 == 0 {
+		return strings.ToUpper(k)
+	}
+	return k
+}
+
 type cacheTask struct {
 	err string
 }
@@ -267,6 +277,10 @@ func scenarioN(c *harness.Ctx) {
 		pCacheSameType.Hit()
 	}
 	rounds := 1 + tp.Choose(3)
+	caseDocs := make([]bool, n)
+	for i := range caseDocs {
+		caseDocs[i] = tp.Bool(1, 2)
+	}
 	tasks := make([]*cacheTask, n)
 	c.Config["tasks"] = n
 	c.Config["kinds"] = kinds
@@ -285,6 +299,24 @@ func scenarioN(c *harness.Ctx) {
 					if !reflect.DeepEqual(got, v) {
 						tasks[i].fail("task %d round %d: decoded %+v, encoded %+v", i, r, got, v)
 						return
+					}
+					// a document written by someone else: keys whose capitalisation
+					// differs from the field names (the decoder matches them
+					// case-insensitively), a different spelling per task and round
+					if caseDocs[i] {
+						pCacheCaseFold.Hit()
+						kx, ks := caseKey("x", i+r), caseKey("s", i*3+r)
+						doc := nbtgen.Doc(&nbtgen.Node{Tag: nbtgen.Compound, Keys: []string{kx, ks}, Vals: []*nbtgen.Node{
+							{Tag: nbtgen.Int, Num: uint64(uint32(1000 + i))}, {Tag: nbtgen.String, Str: "foreign"}}}, "", false)
+						var a tA
+						if err := nbt.Unmarshal(doc, &a); err != nil {
+							tasks[i].fail("task %d: decoding a document with keys %q/%q: %v", i, kx, ks, err)
+							return
+						}
+						if a.X != int32(1000+i) || a.S != "foreign" {
+							tasks[i].fail("task %d: document with keys %q/%q decoded to %+v", i, kx, ks, a)
+							return
+						}
 					}
 				}
 			})
@@ -614,3 +646,4 @@ func scenarioL(c *harness.Ctx) {
 	}
 	c.Fold(uint64(st.maxSeen))
 }
+var pCacheCaseFold = simrt.NewProbe("typecache.foreign.document.with.case-variant.keys")
